@@ -1,4 +1,124 @@
-import DesperModel.World
+import DesperProofs.Lemmas.WorldLog
+/-
+  C07 — Processors run once per frame in priority order, one per type.
+
+  Model: DesperModel/World.lean (`addProcessor`, `removeProcessor`, `process`, `insort`,
+  `bisectRight` mirror world.py:380-504 and bisect.py:4-50).  `run U s₀ ops` is the state after
+  any history of World operations; `priority U s p` is `p.priority` (instance value set by an
+  explicit priority argument, else the class default).
+-/
 open Desper Desper.World
 
-theorem C07_placeholder : (1:Nat) = 1 := rfl
+/-- `bisect_right` on a list sorted by key returns the index `i` with every key before `i`
+`≤ x` and every key from `i` on `> x` (so insertion at `i` is after the rightmost equal key). -/
+theorem C07_bisect_right (keys : List Int) (x : Int) (hs : SortedKeys keys) :
+    let i := bisectRight keys x (keys.length + 1) 0 keys.length
+    i ≤ keys.length ∧ (∀ j : Nat, j < i → keys[j]?.getD 0 ≤ x) ∧
+    (∀ j : Nat, i ≤ j → j < keys.length → x < keys[j]?.getD 0) :=
+  bisectRight_post keys x hs
+
+/-- Stable insertion: a processor is put after every processor whose priority is `≤` its own
+(in particular after those of equal priority that were added before) and before every processor
+with a larger priority; the others keep their relative order. -/
+theorem C07_insort_stable (U : Universe) (s : St) (p : Obj)
+    (h : s.sorted.Pairwise (fun a b => priority U s a ≤ priority U s b)) :
+    ∃ i, insort U s p = s.sorted.take i ++ [p] ++ s.sorted.drop i ∧
+      (∀ a ∈ s.sorted.take i, priority U s a ≤ priority U s p) ∧
+      (∀ b ∈ s.sorted.drop i, priority U s p < priority U s b) :=
+  insort_spec U s p h
+
+/-- After every history of operations `processors` is sorted by non-decreasing priority. -/
+theorem C07_sorted (U : Universe) (hints : List (List Ent)) (ops : List Op) :
+    (run U { sweepHints := hints } ops).sorted.Pairwise
+      (fun a b => priority U (run U { sweepHints := hints } ops) a ≤
+                  priority U (run U { sweepHints := hints } ops) b) :=
+  (pinv_run (pinv_init U hints) ops).sortedP
+
+/-- A world holds at most one processor per exact type, and the type dictionary and the sorted
+list always describe the same set of processors. -/
+theorem C07_one_per_type (U : Universe) (hints : List (List Ent)) (ops : List Op) :
+    let s := run U { sweepHints := hints } ops
+    s.sorted.Nodup ∧
+    (∀ p q, p ∈ s.sorted → q ∈ s.sorted → tyOf U p = tyOf U q → p = q) ∧
+    (∀ t p, Dict.get? s.procs t = some p ↔ (p ∈ s.sorted ∧ tyOf U p = t)) := by
+  have h := pinv_run (pinv_init U hints) ops
+  exact ⟨h.nodup, fun p q hp hq ht => h.onePerType hp hq ht, h.procsIff⟩
+
+/-- `process(dt)` — when the pending deletions are applied without error and no callback raises —
+calls every registered processor exactly once with that `dt`, in the order of `processors`,
+and calls no other processor. -/
+theorem C07_process_once (U : Universe) (hn : NoRaise U) (s : St) (dt : String)
+    (hd : (clearDead U s).2 = .ok) :
+    (process U s dt).2 = .ok ∧
+    procEntries (process U s dt).1.log = (s.sorted.map (·, dt)).reverse ++ procEntries s.log := by
+  unfold process
+  have hp := clearDead_procs U s
+  have hl := clearDead_ext U s
+  cases hx : clearDead U s with
+  | mk s' o =>
+    rw [hx] at hd hp hl
+    simp only at hd; subst hd
+    simp only
+    obtain ⟨h1, h2⟩ := runProcs_exact hn s' dt s'.sorted
+    refine ⟨h1, ?_⟩
+    rw [h2, hp.sorted]
+    obtain ⟨l, hl1, hl2⟩ := hl
+    rw [hl1, procEntries_append, procEntries_of_not_proc l]
+    · rfl
+    · intro e he hpe
+      have := hl2 e he
+      cases e <;> simp_all [isLife, isProc]
+
+/-- Adding a processor of a type that is already present replaces the old instance: afterwards the
+new one is the only processor of that type, so (`C07_process_once`) the old one is never called
+again. -/
+theorem C07_replace (U : Universe) (hints : List (List Ent)) (ops : List Op) (p : Obj)
+    (prio? : Option Int)
+    (hok : (addProcessor U (run U { sweepHints := hints } ops) p prio?).2 = .ok) :
+    let s' := (addProcessor U (run U { sweepHints := hints } ops) p prio?).1
+    Dict.get? s'.procs (tyOf U p) = some p ∧ p ∈ s'.sorted ∧
+    ∀ q, q ∈ s'.sorted → tyOf U q = tyOf U p → q = p := by
+  have h := pinv_run (pinv_init U hints) ops
+  have h' := pinv_addProcessor h p prio?
+  generalize run U { sweepHints := hints } ops = s at *
+  have hmem : p ∈ (addProcessor U s p prio?).1.sorted := by
+    unfold addProcessor at hok ⊢
+    simp only at hok ⊢
+    split
+    · rename_i s1 hx
+      rw [(attachEvents_tables U _ p none).sorted]
+      exact (mem_insort U _ p p).mpr (.inl rfl)
+    · rename_i r hne
+      exfalso
+      split at hok
+      · rename_i s1 hx; exact hne s1 hx
+      · rename_i r' hne'
+        generalize (if (Dict.get? s.procs (tyOf U p)).isSome = true then
+          ((removeProcessor U s (tyOf U p)).1, (removeProcessor U s (tyOf U p)).2.1)
+          else (s, Disp.Outcome.ok)) = x at *
+        obtain ⟨x1, x2⟩ := x
+        simp only at hok
+        subst hok
+        exact hne x1 rfl
+  exact ⟨(h'.procsIff _ _).mpr ⟨hmem, rfl⟩, hmem, fun q hq ht => h'.onePerType hq hmem ht⟩
+
+/-- An explicit priority — any integer, zero and negatives included — overrides the class default. -/
+theorem C07_explicit_priority (U : Universe) (s : St) (p : Obj) (v : Int) :
+    priority U (setPrio s p (some v)) p = v ∧
+    ∀ s1, SameTables (insertProc U (setPrio s p (some v)) p) s1 → priority U s1 p = v := by
+  refine ⟨by simp [priority, setPrio, Dict.get?_set], ?_⟩
+  intro s1 h
+  have : s1.prio = Dict.set s.prio p v := h.prio
+  simp [priority, this, Dict.get?_set]
+
+/-! non-vacuity: three processor classes, priorities 1, 0 (explicit), 0 (tie, added later) -/
+private def exU : Universe :=
+  { classes := [{ bases := [], isProc := true, prio := 1 }, { bases := [], isProc := true, prio := 5 },
+                { bases := [], isProc := true, prio := 0 }],
+    mapping := fun _ => none, objTy := fun o => some o, raises := fun _ _ _ => none }
+
+example :
+    let s := run exU {} [.addProc 0 none, .addProc 1 (some 0), .addProc 2 none]
+    s.sorted = [1, 2, 0] ∧ (clearDead exU s).2 = .ok ∧
+    procEntries (process exU s "7").1.log = [(0, "7"), (2, "7"), (1, "7")] := by
+  decide
